@@ -618,7 +618,10 @@ func (ds *AnySource) HandleExternalTriggers(externalTriggerRowcounts []int64) er
 			return fmt.Errorf("cannot write header to externalTriggerFileBufferedWriter, err %v", err)
 		}
 	}
+	// the counter is also read by ComputeWritingState, which any client thread may call
+	ds.writingState.Lock()
 	ds.writingState.externalTriggerNumberObserved += len(externalTriggerRowcounts)
+	ds.writingState.Unlock()
 	if ds.writingState.externalTriggerFileBufferedWriter != nil && len(externalTriggerRowcounts) > 0 {
 		_, err := ds.writingState.externalTriggerFileBufferedWriter.Write(getbytes.FromSliceInt64(externalTriggerRowcounts))
 		if err != nil {
@@ -633,11 +636,14 @@ func (ds *AnySource) HandleExternalTriggers(externalTriggerRowcounts []int64) er
 				return fmt.Errorf("cannot flush externalTriggerFileBufferedWriter, err %v", err)
 			}
 		}
+		ds.writingState.Lock()
+		nObserved := ds.writingState.externalTriggerNumberObserved
+		ds.writingState.externalTriggerNumberObserved = 0
+		ds.writingState.Unlock()
 		clientMessageChan <- ClientUpdate{tag: "EXTERNALTRIGGER",
 			state: struct {
 				NumberObservedInLastSecond int
-			}{NumberObservedInLastSecond: ds.writingState.externalTriggerNumberObserved}} // only exported fields are serialized
-		ds.writingState.externalTriggerNumberObserved = 0
+			}{NumberObservedInLastSecond: nObserved}} // only exported fields are serialized
 	default:
 	}
 
